@@ -287,20 +287,29 @@ pub broadcast proof fn lemma_net_push(msgs: Seq<Msg>, m: Msg, c: Seq<char>, acct
 {
     assert(msgs.push(m).drop_last() =~= msgs);
 }
-/// funds attached to a request: credited to the contract from the sender before execution (A-CHAIN)
+/// an attribute (k, v) is present in the response.  Stated as a bounded disjunction over the first 16 positions
+/// (no response of this contract carries more than 12 attributes) so that no existential witness is needed;
+/// `lemma_has_attr_ex` shows it implies the unbounded statement.
+pub open spec fn attr_at(attrs: Seq<(Seq<char>, Seq<char>)>, i: int, k: Seq<char>, v: Seq<char>) -> bool {
+    i < attrs.len() && attrs[i] == (k, v)
+}
 pub open spec fn has_attr(attrs: Seq<(Seq<char>, Seq<char>)>, k: Seq<char>, v: Seq<char>) -> bool {
+    attr_at(attrs, 0, k, v) || attr_at(attrs, 1, k, v) || attr_at(attrs, 2, k, v) || attr_at(attrs, 3, k, v)
+    || attr_at(attrs, 4, k, v) || attr_at(attrs, 5, k, v) || attr_at(attrs, 6, k, v) || attr_at(attrs, 7, k, v)
+    || attr_at(attrs, 8, k, v) || attr_at(attrs, 9, k, v) || attr_at(attrs, 10, k, v) || attr_at(attrs, 11, k, v)
+    || attr_at(attrs, 12, k, v) || attr_at(attrs, 13, k, v) || attr_at(attrs, 14, k, v) || attr_at(attrs, 15, k, v)
+}
+pub open spec fn has_attr_ex(attrs: Seq<(Seq<char>, Seq<char>)>, k: Seq<char>, v: Seq<char>) -> bool {
     exists|i: int| 0 <= i < attrs.len() && #[trigger] attrs[i] == (k, v)
 }
-pub proof fn lemma_has_attr_push(attrs: Seq<(Seq<char>, Seq<char>)>, more: Seq<(Seq<char>, Seq<char>)>, k: Seq<char>, v: Seq<char>)
-    ensures has_attr(attrs, k, v) ==> has_attr(attrs + more, k, v),
-            has_attr(more, k, v) ==> has_attr(attrs + more, k, v),
+pub proof fn lemma_has_attr_ex(attrs: Seq<(Seq<char>, Seq<char>)>, k: Seq<char>, v: Seq<char>)
+    requires has_attr(attrs, k, v)
+    ensures has_attr_ex(attrs, k, v)
 {
-    if has_attr(attrs, k, v) {
-        let i = choose|i: int| 0 <= i < attrs.len() && #[trigger] attrs[i] == (k, v);
-        assert((attrs + more)[i] == (k, v));
-    }
-    if has_attr(more, k, v) {
-        let i = choose|i: int| 0 <= i < more.len() && #[trigger] more[i] == (k, v);
-        assert((attrs + more)[attrs.len() + i] == (k, v));
-    }
+    let i = if attr_at(attrs, 0, k, v) { 0int } else if attr_at(attrs, 1, k, v) { 1 } else if attr_at(attrs, 2, k, v) { 2 }
+        else if attr_at(attrs, 3, k, v) { 3 } else if attr_at(attrs, 4, k, v) { 4 } else if attr_at(attrs, 5, k, v) { 5 }
+        else if attr_at(attrs, 6, k, v) { 6 } else if attr_at(attrs, 7, k, v) { 7 } else if attr_at(attrs, 8, k, v) { 8 }
+        else if attr_at(attrs, 9, k, v) { 9 } else if attr_at(attrs, 10, k, v) { 10 } else if attr_at(attrs, 11, k, v) { 11 }
+        else if attr_at(attrs, 12, k, v) { 12 } else if attr_at(attrs, 13, k, v) { 13 } else if attr_at(attrs, 14, k, v) { 14 } else { 15 };
+    assert(attrs[i] == (k, v));
 }
